@@ -157,9 +157,15 @@ type pool struct {
 }
 
 func newPool() (*pool, error) {
-	exe, err := os.Executable()
-	if err != nil {
-		return nil, err
+	// The workers must be this very program, also when the file it was started
+	// from is replaced while it runs (a rebuild by a concurrent ./check): the
+	// kernel's link to the running image, where there is one.
+	exe := "/proc/self/exe"
+	if _, err := os.Stat(exe); err != nil {
+		var err error
+		if exe, err = os.Executable(); err != nil {
+			return nil, err
+		}
 	}
 	return newPoolOf(exe, false)
 }
